@@ -28,6 +28,7 @@ RULE = (
     "distinct = distinct (shape, ops)"
 )
 RULE += '; modification attempts also go around __setattr__ (object.__setattr__, vars())'
+RULE += "; other libraries' sentinels as predicate arguments; __weakref__ / __dict__ / weakref.ref probes"
 LEVEL_TEXT = (
     "Identity oracle: every position that held MISSING before copy/deepcopy/pickle must hold the very same object "
     "after; predicates must agree with identity for every generated value. The operation x protocol x shape(depth<=2) "
@@ -81,6 +82,7 @@ class ClaimsMissing:
         return (ClaimsMissing, ())
 
 
+_FOREIGN_SENTINELS = [dataclasses.MISSING, __import__("inspect").Parameter.empty, Ellipsis, NotImplemented]
 LIKES = [None, False, 0, "", (), [], {}, AlwaysEq(), Falsy(), 0.0, "MISSING", ClaimsMissing()]
 
 
@@ -338,6 +340,25 @@ def check_singleton_basics(out: Outcome):
             pass
         except Exception as exc:  # noqa: BLE001
             out.violate("attr", f"C20.attr/{what}-wrong-error", repr(exc))
+    # per-instance storage under its special names, and the weak-reference slot (state attached to the one object)
+    for name in ("__dict__", "__weakref__"):
+        try:
+            getattr(MISSING, name)
+            out.violate("attr", f"C20.attr/getattr-accepted/{name}", name)
+        except AttributeError:
+            pass
+        except Exception as exc:  # noqa: BLE001
+            out.violate("attr", f"C20.attr/getattr-wrong-error/{name}", repr(exc))
+    try:
+        import weakref
+
+        weakref.ref(MISSING)
+        out.violate("attr", "C20.attr/weak-reference-accepted", "weakref.ref(MISSING)")
+    except TypeError:
+        pass
+    # sentinels of OTHER libraries that also mean "nothing here": not the missing value of this one
+    for foreign in _FOREIGN_SENTINELS:
+        check_predicates(out, foreign)
     # modification that goes AROUND the object's own __setattr__: the base-class setter and the instance dictionary. The
     # one MISSING object carries no per-instance storage at all (nothing to attach a marker to, process-wide)
     for what, fn in (
